@@ -650,6 +650,188 @@ example :
       some [(0, c!"Number of entries"), (1, c!"x"), (2, c!"y"), (3, c!"z")] := by
   decide +kernel
 
+/-! ## T compact_members_complete -/
+
+/-- what every entry of an array described in compact form shares with the template -/
+def LikeTemplate (tv v : Var) : Prop :=
+  v.index = tv.index ∧ v.dataType = tv.dataType ∧ v.accessType = tv.accessType ∧ v.min = tv.min ∧
+  v.max = tv.max ∧ v.default = tv.default
+
+/-- invariant of the sub-index table of an array assembled from a compact description -/
+def CompactInv (tv : Var) (d : List (Nat × Var)) : Prop :=
+  (∀ k v, dictGet k d = some v → v.subindex = k ∧ (k = 0 ∨ LikeTemplate tv v)) ∧
+  ∃ v1, dictGet 1 d = some v1 ∧ LikeTemplate tv v1
+
+theorem compactInv_set (tv : Var) (d : List (Nat × Var)) (h : CompactInv tv d) (v : Var)
+    (hv : LikeTemplate tv v) : CompactInv tv (dictSet v.subindex v d) := by
+  obtain ⟨h1, v1, hv1, hl1⟩ := h
+  refine ⟨fun k x hx => ?_, ?_⟩
+  · by_cases hk : v.subindex = k
+    · subst hk
+      rw [dictGet_dictSet_same] at hx
+      cases hx
+      exact ⟨rfl, Or.inr hv⟩
+    · rw [dictGet_dictSet_ne _ _ _ _ hk] at hx
+      exact h1 k x hx
+  · by_cases hk : v.subindex = 1
+    · exact ⟨v, by rw [← hk, dictGet_dictSet_same], hv⟩
+    · exact ⟨v1, by rw [dictGet_dictSet_ne _ _ _ _ hk]; exact hv1, hl1⟩
+
+theorem compactInv_foldl (tv : Var) : ∀ (vs : List Var) (d : List (Nat × Var)), CompactInv tv d →
+    (∀ v ∈ vs, LikeTemplate tv v) →
+    CompactInv tv (vs.foldl (fun d v => dictSet v.subindex v d) d) := by
+  intro vs
+  induction vs with
+  | nil => intro d h _; exact h
+  | cons v r ih =>
+    intro d h hall
+    exact ih _ (compactInv_set tv d h v (hall v (by simp)))
+      (fun x hx => hall x (by simp [hx]))
+
+theorem namedCopies_like (tv : Var) : ∀ (ns : List Str) (k : Nat),
+    ∀ v ∈ namedCopies tv k ns, LikeTemplate tv v := by
+  intro ns k v hv
+  induction ns generalizing k with
+  | nil => simp [namedCopies] at hv
+  | cons n r ih =>
+    simp only [namedCopies, List.mem_cons] at hv
+    rcases hv with rfl | hv
+    · exact ⟨rfl, rfl, rfl, rfl, rfl, rfl⟩
+    · exact ih (k + 1) hv
+
+theorem foldl_addMember_isArray (vs : List Var) : ∀ c : Coll, (vs.foldl Coll.addMember c).isArray = c.isArray := by
+  induction vs with
+  | nil => intro c; rfl
+  | cons v r ih => intro c; simp only [List.foldl_cons]; rw [ih]; rfl
+
+/-- **Compact arrays, every announced entry.**  For an array described in compact form — `n` entries,
+    with no name list, or a name list for the first entries or for all of them — every sub-index
+    `1 ≤ k ≤ 254` (so every `k ≤ n`, whatever `n ≤ 254` the file announces, the last one `n = 254`
+    included) of the imported array is a variable with that sub-index and the template's index, data
+    type, access type, limits and default value; sub-index 0 is the entry count. -/
+theorem compact_members_complete (nid : Option Int) (i : Nat) (up : Bool) (n : Nat) (nSp : NumSp) (t : SVar)
+    (otSp : NumSp) (names : Option (List Str)) (k : Nat) (hk1 : 1 ≤ k) (hk : k ≤ 254) :
+    ∀ c, buildObj nid (.compact i up n nSp t otSp names) = .coll c →
+      ∃ v, c.getItem (.idx k) = some v ∧ v.subindex = k ∧ LikeTemplate (denoteVar t nid i 1) v := by
+  intro c hc
+  -- the array is the base (entry count + template) with the named copies added
+  have hc' : ∃ vs : List Var, (∀ v ∈ vs, LikeTemplate (denoteVar t nid i 1) v) ∧
+      c = vs.foldl Coll.addMember (compactBase nid i t) := by
+    cases names with
+    | none =>
+      refine ⟨[], by simp, ?_⟩
+      simp only [buildObj, Obj.coll.injEq] at hc
+      rw [← hc]; rfl
+    | some ns =>
+      refine ⟨namedCopies (denoteVar t nid i 1) 1 ns, namedCopies_like _ ns 1, ?_⟩
+      simp only [buildObj, Obj.coll.injEq] at hc
+      rw [← hc, ← addNamed_eq_foldl]; rfl
+  obtain ⟨vs, hvs, rfl⟩ := hc'
+  have hbase : CompactInv (denoteVar t nid i 1) (compactBase nid i t).subs := by
+    have hsubs : (compactBase nid i t).subs = [(0, numberOfEntriesVar i), (1, denoteVar t nid i 1)] := by
+      simp [compactBase, Coll.addMember, numberOfEntriesVar, denoteVar, dictSet]
+    rw [hsubs]
+    refine ⟨fun k v hv => ?_, denoteVar t nid i 1, by simp [dictGet], ⟨rfl, rfl, rfl, rfl, rfl, rfl⟩⟩
+    simp only [dictGet] at hv
+    split at hv
+    · rename_i h0; cases hv; exact ⟨by rw [← h0]; rfl, Or.inl h0.symm⟩
+    · split at hv
+      · rename_i h1; cases hv; exact ⟨by rw [← h1]; rfl, Or.inr ⟨rfl, rfl, rfl, rfl, rfl, rfl⟩⟩
+      · exact absurd hv (by simp)
+  have hinv := compactInv_foldl _ vs _ hbase hvs
+  rw [← subs_foldl_addMember] at hinv
+  obtain ⟨h1, v1, hv1, hl1⟩ := hinv
+  have hidx : (vs.foldl Coll.addMember (compactBase nid i t)).index = i := by
+    rw [foldl_addMember_index]; rfl
+  have harr : (vs.foldl Coll.addMember (compactBase nid i t)).isArray = true := by
+    rw [foldl_addMember_isArray]; rfl
+  cases hg : dictGet k (vs.foldl Coll.addMember (compactBase nid i t)).subs with
+  | some v =>
+    obtain ⟨hs, hl⟩ := h1 k v hg
+    refine ⟨v, by simp [Coll.getItem, hg], hs, ?_⟩
+    rcases hl with h0 | hl
+    · omega
+    · exact hl
+  | none =>
+    refine ⟨arrayTemplateVar (vs.foldl Coll.addMember (compactBase nid i t)) v1 k, ?_, rfl, ?_⟩
+    · have : 0 < k ∧ k < 256 := ⟨by omega, by omega⟩
+      simp [Coll.getItem, hg, hv1, harr, this]
+    · obtain ⟨a1, a2, a3, a4, a5, a6⟩ := hl1
+      exact ⟨by show (vs.foldl Coll.addMember (compactBase nid i t)).index = _; rw [hidx]; rfl,
+             a2, a3, a4, a5, a6⟩
+
+/-- … and end to end: importing the written file, looking the array up by its index and asking it for any
+    of the `n ≤ 254` entries it announces (the last one included) gives such a variable. -/
+theorem compact_imported_complete (sod : SOD) (hwf : sod.WF) (hd : Distinct sod) (arg : Option Int)
+    (i : Nat) (up : Bool) (n : Nat) (nSp : NumSp) (t : SVar) (otSp : NumSp) (names : Option (List Str))
+    (ho : SObj.compact i up n nSp t otSp names ∈ sod.objs) (k : Nat) (hk1 : 1 ≤ k) (hkn : k ≤ n) (hn : n ≤ 254) :
+    ∃ od c v, importEds (write sod) arg = some od ∧ od.getItem (.idx i) = some (.coll c) ∧
+      c.getItem (.idx k) = some v ∧ v.subindex = k ∧
+      LikeTemplate (denoteVar t (nodeIdInForce sod.header arg) i 1) v := by
+  obtain ⟨c, hc⟩ : ∃ c, buildObj (nodeIdInForce sod.header arg) (.compact i up n nSp t otSp names) = .coll c :=
+    ⟨_, rfl⟩
+  obtain ⟨v, hv, hs, hl⟩ := compact_members_complete (nodeIdInForce sod.header arg) i up n nSp t otSp names k hk1
+    (by omega) c hc
+  have hl' := (lookups_agree denoteDevInfo sod hd arg _ ho).1
+  simp only [SObj.index] at hl'
+  rw [hc] at hl'
+  exact ⟨build sod arg, c, v, import_write sod hwf arg, hl', hv, hs, hl⟩
+
+/-- the largest array: 254 entries, the first three with names of their own: entry 3 is the named copy,
+    entries 4 and 254 are made from the template, 255 is beyond what the description announces -/
+example :
+    (match buildObj (some 5) (.compact 0x2100 true 254 {} { exSpeed with name := c!"Arr" } {} (some [c!"x", c!"y", c!"z"])) with
+     | .coll c => [3, 4, 253, 254].map fun k => (c.getItem (.idx k)).map fun v => (v.name, v.subindex, v.dataType, v.min)
+     | .var _ => []) =
+      [some (c!"z", 3, 0x10, some (-8388608)), some (c!"x_4", 4, 0x10, some (-8388608)),
+       some (c!"x_fd", 253, 0x10, some (-8388608)), some (c!"x_fe", 254, 0x10, some (-8388608))] := by
+  decide +kernel
+
+/-! ## T import_history -/
+
+/-- **Histories.**  Whatever was written and imported before — on the same paths or on others, starting
+    from any file system — every step that writes the text of a well-formed description to a path
+    ending in `.eds`/`.dcf` and imports that path yields the dictionary described *in that step*:
+    nothing of an earlier import survives. -/
+theorem import_history (steps : List (Str × SOD × Option Int))
+    (hok : ∀ s ∈ steps, s.2.1.WF ∧ (suffixOf s.1 = c!".eds" ∨ suffixOf s.1 = c!".dcf")) (fs : Files) :
+    importHistory fs (steps.map fun s => { path := s.1, doc := write s.2.1, nodeId := s.2.2 })
+      = steps.map fun s => some (build s.2.1 s.2.2) := by
+  induction steps generalizing fs with
+  | nil => rfl
+  | cons s r ih =>
+    obtain ⟨hwf, hsfx⟩ := hok s (by simp)
+    simp only [List.map_cons, importHistory, List.cons.injEq]
+    refine ⟨?_, ih (fun x hx => hok x (by simp [hx])) _⟩
+    simp only [importPath, Files.write, dictGet_dictSet_same, importOd]
+    rw [if_pos hsfx]
+    exact import_write s.2.1 hwf s.2.2
+
+/-- a file that is rewritten between two imports: the second import sees the second description only -/
+example :
+    importHistory [] [{ path := c!"dev.dcf", doc := write exSod, nodeId := none },
+                      { path := c!"dev.dcf", doc := write { objs := [.var 0x2000 false exBlob none true] }, nodeId := some 3 }]
+      = [some (build exSod none), some (build { objs := [.var 0x2000 false exBlob none true] } (some 3))] := by
+  have h := import_history
+    [(c!"dev.dcf", exSod, none), (c!"dev.dcf", { objs := [.var 0x2000 false exBlob none true] }, some 3)]
+    (by
+      intro s hs
+      simp only [List.mem_cons, List.not_mem_nil, or_false] at hs
+      rcases hs with rfl | rfl
+      · exact ⟨exSod_wf, Or.inr (by decide)⟩
+      · refine ⟨⟨?_, by intro s hs; simp at hs⟩, Or.inr (by decide)⟩
+        intro o ho
+        apply objWf_of_B
+        revert o
+        decide) []
+  simpa using h
+
+/-- a comment block of twelve lines, their number in hex: the lines come back in numeric order -/
+example :
+    (importEds (write { header := { comments := some ((List.range 12).map (fun k => natStr 10 false (k + 1)),
+                                                      { base := .hex, upDigits := true }) } }) none).map (·.comments)
+      = some c!"1\n2\n3\n4\n5\n6\n7\n8\n9\n10\n11\n12" := by decide +kernel
+
 /-! ## T tables_as_modelled -/
 
 /-- The generated constants are the ones the model and the writer assume: object types, the
